@@ -440,6 +440,48 @@ def stage_special_slots(ctx: Ctx):
                                       {**desc, 'after_first_put': mid, 'second': second, 'result_src': root.src, 'child_at_slot_ok': okc, 'rest_unchanged': rest_ok, 'live_tree_equals_reparse': live_ok})
 
 
+UNPAR_THEN = [('x = a if({})else c', 'value.test'), ('x = a and({})and c', 'value.values[1]'), ('x = [i for i in({})if i]', 'value.generators[0].iter'), ('x = a if b else({})if c else d', 'value.orelse.body'),
+              ('x = not({})or z', 'value.values[0].operand'), ('x = a in({})or z', 'value.values[0].comparators[0]'), ('x = (yy)if({})else(zz)', 'value.test'), ('x = a if(\n {}\n)else c', 'value.test')]
+UNPAR_REPL = ['d if e else f', 'd or e', 'lambda: y', 'd', 'not d', 'd, e', 'd := e', 'd +\n e', '*d' if False else 'await_ < d', 'yield_ and d']
+
+
+def stage_unpar_then_replace(ctx: Ctx):
+    """deterministic: TWO steps on an operand whose parentheses are glued to names / keywords on both sides: unpar() (the parentheses become blanks, nothing moves), then the operand replaced by
+    an expression that needs parentheses there: the surrounding expression groups as before (what pars() said before the unpar must not be remembered)"""
+    import fst
+    for tmpl, path in UNPAR_THEN:
+        for new in UNPAR_REPL:
+            src = tmpl.format('zz')
+            try:
+                want_src = tmpl.format(new)
+                want = canon(ast.parse(want_src))
+            except SyntaxError:
+                continue
+            for pre in ('unpar', 'unpar+pars-query', 'none'):
+                root = fst.FST(src, 'exec')
+                node = eval('root.body[0].' + path)
+                rec = {'src': src, 'operand': path, 'first': pre, 'then_replace_with': new}
+                try:
+                    node.pars()
+                    if pre != 'none':
+                        node.unpar()
+                        if pre == 'unpar+pars-query':
+                            node.pars()
+                    node = eval('root.body[0].' + path)
+                    node.replace(new)
+                except Exception as e:
+                    ctx.tick(None, 'unpar-then:refused')
+                    continue
+                ctx.tick(('unpar-then', tmpl, new, pre), 'unpar-then-replace')
+                try:
+                    got = canon(ast.parse(root.src))
+                except SyntaxError:
+                    got = None
+                if got != want:
+                    ctx.violation(f'group|unpar-then-replace|{pre}', 'after unpar() of an operand and a replacement that needs parentheses the surrounding expression groups differently (or does not parse)',
+                                  {**rec, 'result_src': root.src, 'expected_like': want_src})
+
+
 def run(ctx: Ctx):
     ctx.rule = ('(1) translated decision function vs the real one on every (child kind, parent, field) x 6 flag settings; (2) soundness of the hand grammar spec '
                 'against ast.parse on every (slot, child kind, example); (3) real puts: every (slot, child kind) x layout (bare / parenthesised / multi-line / '
@@ -455,6 +497,7 @@ def run(ctx: Ctx):
     run_guarded(ctx, stage_oracle)
     run_guarded(ctx, stage_keep_needed)
     run_guarded(ctx, stage_special_slots)
+    run_guarded(ctx, stage_unpar_then_replace)
 
 
 def replay(path):
